@@ -217,7 +217,11 @@ func runC16(w *worker) func(c c16Case) *Failure {
 		}
 		// calls on OTHER values of the same type leave this one alone as well (whatever an earlier call
 		// kept of its argument): another value, by value and by pointer, then this one again
-		for round, other := range []interface{}{reflect.New(b.Type).Elem().Interface(), reflect.New(b.Type).Interface()} {
+		others := []interface{}{reflect.New(b.Type).Elem().Interface(), reflect.New(b.Type).Interface()}
+		if s > 1<<16 {
+			others = others[:1] // large values: one round (every round walks the whole value twice)
+		}
+		for round, other := range others {
 			if _, f := fSize(other); f != nil {
 				return f
 			}
